@@ -146,10 +146,24 @@ func (g *codeGenerator) genTypes(types map[string]*Type) {
 }
 
 func (g *codeGenerator) genMsgs(msgs []*Msg) {
-	g.p("import (")
-	g.p("\"math\"")
-	g.p("\"time\"")
-	g.p(")")
+	// Generate the declarations first: a product profile without any
+	// scaled field or without any time field must not import the package
+	// it has no use for.
+	out := g.Buffer
+	g.Buffer = new(bytes.Buffer)
+	defer func() {
+		decls := g.Buffer.Bytes()
+		g.Buffer = out
+		g.p("import (")
+		if bytes.Contains(decls, []byte("math.NaN()")) {
+			g.p("\"math\"")
+		}
+		if bytes.Contains(decls, []byte("time.Time")) {
+			g.p("\"time\"")
+		}
+		g.p(")")
+		g.Write(decls)
+	}()
 	for _, msg := range msgs {
 		g.p()
 		g.p("// ", msg.CCName, "Msg represents the ", msg.Name, " FIT message type.")
@@ -625,11 +639,22 @@ func (g *codeGenerator) genExpandComponentsMaskShiftDyn(msg *Msg, sfield, mfield
 }
 
 func (g *codeGenerator) genProfile(types map[string]*Type, msgs []*Msg) {
-	g.p("import (")
-	g.p("\"reflect\"")
-	g.p()
-	g.p("\"github.com/tormoder/fit/internal/types\"")
-	g.p(")")
+	// As in genMsgs: a product profile without any field has no use for
+	// the types package.
+	out := g.Buffer
+	g.Buffer = new(bytes.Buffer)
+	defer func() {
+		decls := g.Buffer.Bytes()
+		g.Buffer = out
+		g.p("import (")
+		g.p("\"reflect\"")
+		if bytes.Contains(decls, []byte("types.Fit(")) {
+			g.p()
+			g.p("\"github.com/tormoder/fit/internal/types\"")
+		}
+		g.p(")")
+		g.Write(decls)
+	}()
 
 	g.genVersionConsts()
 	g.genKnownMsgs(types)
